@@ -1,51 +1,8 @@
-(* DRAFT for a model M15 of nilaway.go PrettyPrintErrorMessage (the pretty-printing half of C13), not yet part of the build
-   (design/ is not compiled by coq/mk.sh).  Messages are byte lists (N).  Each of the three regexp.ReplaceAllString passes is a
-   structurally recursive state machine; strip is the ANSI remover \x1b\[[0-9;]*m of the oracle.  To do: nilabilityPattern
-   pass, the theorem strip (pretty m) = "error: " ++ m for ESC-free m (invariant: well-formed escaped text, the escape bytes are
-   neither a delimiter nor a newline), and the tie (evaluate inside Coq on the messages given to bin/harness pretty). *)
+(* M15 proofs: stripping the escape sequences from the pretty-printed message gives back `error: ` and the plain message *)
 From Coq Require Import List NArith Bool.
+From NM Require Import Pretty.
 Import ListNotations.
 Open Scope N_scope.
-Definition ESC := 27. Definition LBR := 91. Definition CM := 109. Definition NL := 10. Definition SEMI := 59.
-Definition BQ := 96. Definition DQ := 34.
-Definition is_param (c : N) : bool := ((48 <=? c) && (c <=? 57)) || (c =? SEMI).
-
-(* one delimiter pass: `d(.*?)d` -> open d ${1} d close, `.` not matching newline *)
-Inductive dstate := Outside | Inside (buf : list N).
-Fixpoint dpass (d : N) (op cl : list N) (st : dstate) (l : list N) : list N :=
-  match l, st with
-  | [], Outside => []
-  | [], Inside buf => d :: buf
-  | c :: r, Outside => if c =? d then dpass d op cl (Inside []) r else c :: dpass d op cl Outside r
-  | c :: r, Inside buf =>
-      if c =? d then op ++ d :: buf ++ d :: cl ++ dpass d op cl Outside r
-      else if c =? NL then d :: buf ++ c :: dpass d op cl Outside r
-      else dpass d op cl (Inside (buf ++ [c])) r
-  end.
-
-Definition esc (code : list N) : list N := ESC :: LBR :: code ++ [CM].
-Definition code_pass := dpass BQ (esc [57; 53]) (esc [48]) Outside.   (* 95 *)
-Definition path_pass := dpass DQ (esc [51; 54]) (esc [48]) Outside.   (* 36 *)
-
-(* the oracle's strip *)
-Inductive sstate := SNormal | SEsc | SCsi (buf : list N).
-Definition flush (st : sstate) : list N := match st with SNormal => [] | SEsc => [ESC] | SCsi b => ESC :: LBR :: b end.
-Fixpoint strip (st : sstate) (l : list N) : list N :=
-  match l with
-  | [] => flush st
-  | c :: r =>
-      match st with
-      | SNormal => if c =? ESC then strip SEsc r else c :: strip SNormal r
-      | SEsc => if c =? LBR then strip (SCsi []) r
-                else flush st ++ (if c =? ESC then strip SEsc r else c :: strip SNormal r)
-      | SCsi b => if is_param c then strip (SCsi (b ++ [c])) r
-                  else if c =? CM then strip SNormal r
-                  else flush st ++ (if c =? ESC then strip SEsc r else c :: strip SNormal r)
-      end
-  end.
-
-Example ex1 : strip SNormal (path_pass (code_pass [BQ; 120; BQ; 32; DQ; 97; DQ; 32; BQ; 10; BQ])) = [BQ; 120; BQ; 32; DQ; 97; DQ; 32; BQ; 10; BQ].
-Proof. vm_compute. reflexivity. Qed.
 
 (* ---------- first lemmas: one delimiter pass over an ESC-free message is undone by strip ---------- *)
 Definition escfree (l : list N) : Prop := forall c, In c l -> c <> ESC.
@@ -180,65 +137,6 @@ Proof.
 Qed.
 Print Assumptions code_then_path_strip.
 
-(* ---------- the nilabilityPattern pass: ([\(|^\t](?i)(found\s|must\sbe\s)(nilable|nonnil)[\)]?) -> ESC[1m ${1} ESC[0m ---------- *)
-(* definitions only (executable); to do: match_len_spec (first and last byte of a match are safe), npass_invisible *)
-Definition lower (c : N) : N := if (65 <=? c) && (c <=? 90) then c + 32 else c.
-Definition is_ws (c : N) : bool := (c =? 9) || (c =? 10) || (c =? 12) || (c =? 13) || (c =? 32).
-Definition in_class (c : N) : bool := (c =? 40) || (c =? 124) || (c =? 94) || (c =? 9).
-(* the rest of l after the word w, compared case-insensitively (w in lower case) *)
-Fixpoint after_word (w l : list N) : option (list N) :=
-  match w, l with
-  | [], _ => Some l
-  | x :: w', c :: r => if lower c =? x then after_word w' r else None
-  | _ :: _, [] => None
-  end.
-Definition after_ws (l : list N) : option (list N) := match l with c :: r => if is_ws c then Some r else None | [] => None end.
-Definition bind {A B} (o : option A) (f : A -> option B) : option B := match o with Some a => f a | None => None end.
-Definition w_found := [102; 111; 117; 110; 100]. Definition w_must := [109; 117; 115; 116]. Definition w_be := [98; 101].
-Definition w_nilable := [110; 105; 108; 97; 98; 108; 101]. Definition w_nonnil := [110; 111; 110; 110; 105; 108].
-Definition opt_close (r : list N) : nat := match r with c :: _ => if c =? 41 then 1%nat else 0%nat | [] => 0%nat end.
-(* length of the leftmost-first match at the head of l *)
-Definition match_len (l : list N) : option nat :=
-  match l with
-  | c :: r =>
-      if in_class c then
-        bind (match bind (after_word w_found r) after_ws with
-              | Some r1 => Some (6%nat, r1)
-              | None => bind (bind (bind (bind (after_word w_must r) after_ws) (after_word w_be)) after_ws) (fun r1 => Some (8%nat, r1))
-              end)
-          (fun '(n1, r1) =>
-             bind (match after_word w_nilable r1 with
-                   | Some r2 => Some (7%nat, r2)
-                   | None => bind (after_word w_nonnil r1) (fun r2 => Some (6%nat, r2))
-                   end)
-               (fun '(n2, r2) => Some (1 + n1 + n2 + opt_close r2)%nat))
-      else None
-  | [] => None
-  end.
-Fixpoint npass (op cl : list N) (k : nat) (l : list N) : list N :=
-  match l with
-  | [] => []
-  | c :: r =>
-      match k with
-      | S j => c :: (match j with O => cl ++ npass op cl O r | _ => npass op cl j r end)
-      | O => match match_len l with
-             | Some (S j) => op ++ c :: (match j with O => cl ++ npass op cl O r | _ => npass op cl j r end)
-             | _ => c :: npass op cl O r
-             end
-      end
-  end.
-Definition nil_pass := npass (esc [49]) (esc [48]) O.
-Definition pretty (m : list N) : list N :=
-  esc [51; 49] ++ [101; 114; 114; 111; 114; 58; 32] ++ esc [48] ++ path_pass (code_pass (nil_pass m)).
-
-(* "(found NILABLE) x" *)
-Example ex_nil : strip SNormal (pretty [40; 102; 111; 117; 110; 100; 32; 78; 73; 76; 65; 66; 76; 69; 41; 32; 120])
-  = [101; 114; 114; 111; 114; 58; 32] ++ [40; 102; 111; 117; 110; 100; 32; 78; 73; 76; 65; 66; 76; 69; 41; 32; 120].
-Proof. vm_compute. reflexivity. Qed.
-Example ex_nil_wrapped : nil_pass [40; 102; 111; 117; 110; 100; 32; 78; 73; 76; 65; 66; 76; 69; 41; 32; 120]
-  = esc [49] ++ [40; 102; 111; 117; 110; 100; 32; 78; 73; 76; 65; 66; 76; 69; 41] ++ esc [48] ++ [32; 120].
-Proof. vm_compute. reflexivity. Qed.
-
 (* the nilability pass runs FIRST, on the ESC-free message: there the remover is always in SNormal, where a complete escape
    sequence is invisible wherever it is inserted -- so nothing about the matcher is needed, the lemma holds for every k *)
 Lemma strip_normal_cons : forall c r, c <> ESC -> strip SNormal (c :: r) = c :: strip SNormal r.
@@ -260,7 +158,6 @@ Proof.
   - apply T.
 Qed.
 
-Definition error_prefix : list N := [101; 114; 114; 111; 114; 58; 32].
 
 (* C13, second sentence, for the model: stripping the escape sequences from the pretty-printed message gives back
    `error: ` followed by the plain message, for every message that contains no ESC byte itself *)
